@@ -19,10 +19,11 @@ LEVEL_TEXT = ("Generated validated queries with @defer/@stream (nested, labelled
               "lists of awaitables and async iterators) are executed by the real experimental_execute_incrementally on the controlled loop under seeded "
               "schedules (resolver completion order, consumer pull timing), with early execution on and off and error propagation on and off; an independent "
               "merge model (R4) applies the payloads to the initial result and the outcome is compared with an independent specification executor (R3) that "
-              "ignores the directives: exact equality when error-free or propagation is disabled, the 'refines' relation otherwise.")
+              "ignores the directives: exact equality when error-free or propagation is disabled, the 'refines' relation otherwise (a key may stay undelivered only if every @defer fragment that selects it - computed by "
+              "walking the document along the reference data - was completed with errors or is nested in one that was).")
 LEVEL_NOTE = ("trusted: R3 (reference executor), R4 (merge model, vf/ref/incremental.py), the controlled loop; objects are compared unordered (deferred keys legitimately arrive later), lists ordered")
 TECHNIQUE = "runtime monitoring with schedule control: differential oracle (merge model + specification executor) over incremental payload histories"
-RULE = ("requests from G-doc over the rich schema with the three experimental directives added (1/11 of the seeds: over a generated valid schema with those directives added; 5/11: the split-defer, overlapping-defer, list-nested-defer, shared-fragment and stream template families, the last with list sources that are mostly async iterators); fault rate in {0, .1, .25} (null, raise, returned exception, wrong shape, list source raising after its items); @experimental_disableErrorPropagation on 30% of the operations; "
+RULE = ("requests from G-doc over the rich schema with the three experimental directives added (1/11 of the seeds: over a generated valid schema with those directives added; 1/11 mutations; 1/13 resolved through is_type_of; 7/11: the nested-shared-defer, triple-nested-defer, split-defer, overlapping-defer, list-nested-defer, shared-fragment and stream template families, the last with list sources that are mostly async iterators); fault rate in {0, .1, .25} (null, raise, returned exception, wrong shape, list source raising after its items); @experimental_disableErrorPropagation on 30% of the operations; "
         "per request 6 (quick) / 10 (thorough) schedules x early execution in {off,on}. Non-trivial: the response was incremental (>= 1 subsequent payload); "
         "distinct = (document, variables, early, interleaving signature).")
 ASSUMPTIONS = ["when the *source* of a streamed list fails after items were delivered, those items cannot be taken back: such runs are judged by the refines relation "
